@@ -75,3 +75,24 @@ package header
 //@   requires rww != nil && rww.ResponseWriterWrapper != nil
 //@   modifies responseWriterWrapper.ops, E:github.com/tmpim/casket/caskethttp/header.headerOperation, ghost:delsNow
 //@   ensures [deleted_now_and_armed_for_later] delsNow == old(delsNow) + 1 && len(rww.ops) == old(len(rww.ops)) + 1 && forall(k, 0, old(len(rww.ops)), rww.ops[k] == old(rww.ops[k]))
+
+//@ unit setup_registers frames=on props=C11,C09 nilchecks=on filter=`header\.setup$`
+//@ // Every run of this directive's setup (casket runs it once per address of a server block) parses the directive's tokens
+//@ // ITSELF and, when that succeeds, registers exactly one handler for the site - after parsing, so the handler is built from
+//@ // what this very run read; a run whose parse fails registers nothing (C11: the error is the only outcome; C09: the
+//@ // handler exists from this directive's turn on)
+//@ use @verif/specs/stdlib.spec:casket_api
+//@ ghost parsedNow int
+//@ ghost registered int
+//@ func headersParse
+//@   requires c != nil
+//@   modifies ghost:parsedNow
+//@   ensures parsedNow == old(parsedNow) + 1
+//@ extern (*github.com/tmpim/casket/caskethttp/httpserver.SiteConfig).AddMiddleware
+//@   modifies ghost:registered
+//@   ensures registered == old(registered) + 1
+//@ func setup
+//@   requires c != nil && parsedNow == 0 && registered == 0
+//@   modifies ghost:parsedNow, ghost:registered
+//@   at call (*github.com/tmpim/casket/caskethttp/httpserver.SiteConfig).AddMiddleware before [registered_after_this_runs_own_parse] parsedNow == 1
+//@   ensures [one_handler_on_success_none_on_error] parsedNow == 1 && (result == nil ==> registered == 1) && (result != nil ==> registered == 0)
